@@ -52,15 +52,15 @@ Props/C07.vos Props/C07.vok Props/C07.required_vos: Props/C07.v Model/GoInt.vos 
 Proofs/Promise.vo Proofs/Promise.glob Proofs/Promise.v.beautified Proofs/Promise.required_vo: Proofs/Promise.v Model/Term.vo Model/Unify.vo Model/Clause.vo Model/Machine.vo
 Proofs/Promise.vio: Proofs/Promise.v Model/Term.vio Model/Unify.vio Model/Clause.vio Model/Machine.vio
 Proofs/Promise.vos Proofs/Promise.vok Proofs/Promise.required_vos: Proofs/Promise.v Model/Term.vos Model/Unify.vos Model/Clause.vos Model/Machine.vos
-Proofs/Trampoline.vo Proofs/Trampoline.glob Proofs/Trampoline.v.beautified Proofs/Trampoline.required_vo: Proofs/Trampoline.v Model/Term.vo Model/Unify.vo Model/Clause.vo Model/Machine.vo
-Proofs/Trampoline.vio: Proofs/Trampoline.v Model/Term.vio Model/Unify.vio Model/Clause.vio Model/Machine.vio
-Proofs/Trampoline.vos Proofs/Trampoline.vok Proofs/Trampoline.required_vos: Proofs/Trampoline.v Model/Term.vos Model/Unify.vos Model/Clause.vos Model/Machine.vos
+Proofs/Trampoline.vo Proofs/Trampoline.glob Proofs/Trampoline.v.beautified Proofs/Trampoline.required_vo: Proofs/Trampoline.v Model/Term.vo Model/Unify.vo Model/Clause.vo Model/Machine.vo Proofs/Promise.vo
+Proofs/Trampoline.vio: Proofs/Trampoline.v Model/Term.vio Model/Unify.vio Model/Clause.vio Model/Machine.vio Proofs/Promise.vio
+Proofs/Trampoline.vos Proofs/Trampoline.vok Proofs/Trampoline.required_vos: Proofs/Trampoline.v Model/Term.vos Model/Unify.vos Model/Clause.vos Model/Machine.vos Proofs/Promise.vos
 Props/C01.vo Props/C01.glob Props/C01.v.beautified Props/C01.required_vo: Props/C01.v Model/Term.vo Model/Unify.vo Model/Clause.vo Model/Machine.vo Proofs/Promise.vo Proofs/Trampoline.vo
 Props/C01.vio: Props/C01.v Model/Term.vio Model/Unify.vio Model/Clause.vio Model/Machine.vio Proofs/Promise.vio Proofs/Trampoline.vio
 Props/C01.vos Props/C01.vok Props/C01.required_vos: Props/C01.v Model/Term.vos Model/Unify.vos Model/Clause.vos Model/Machine.vos Proofs/Promise.vos Proofs/Trampoline.vos
-Props/C03.vo Props/C03.glob Props/C03.v.beautified Props/C03.required_vo: Props/C03.v Model/Term.vo Model/Unify.vo Model/Clause.vo Model/Machine.vo Proofs/Promise.vo Proofs/Trampoline.vo
-Props/C03.vio: Props/C03.v Model/Term.vio Model/Unify.vio Model/Clause.vio Model/Machine.vio Proofs/Promise.vio Proofs/Trampoline.vio
-Props/C03.vos Props/C03.vok Props/C03.required_vos: Props/C03.v Model/Term.vos Model/Unify.vos Model/Clause.vos Model/Machine.vos Proofs/Promise.vos Proofs/Trampoline.vos
-Props/C04.vo Props/C04.glob Props/C04.v.beautified Props/C04.required_vo: Props/C04.v Model/Term.vo Model/Unify.vo Model/Clause.vo Model/Machine.vo Proofs/Promise.vo Proofs/Trampoline.vo
-Props/C04.vio: Props/C04.v Model/Term.vio Model/Unify.vio Model/Clause.vio Model/Machine.vio Proofs/Promise.vio Proofs/Trampoline.vio
-Props/C04.vos Props/C04.vok Props/C04.required_vos: Props/C04.v Model/Term.vos Model/Unify.vos Model/Clause.vos Model/Machine.vos Proofs/Promise.vos Proofs/Trampoline.vos
+Props/C03.vo Props/C03.glob Props/C03.v.beautified Props/C03.required_vo: Props/C03.v Model/Term.vo Model/Unify.vo Model/Clause.vo Model/Machine.vo Proofs/Promise.vo Proofs/Trampoline.vo Model/Boot.vo
+Props/C03.vio: Props/C03.v Model/Term.vio Model/Unify.vio Model/Clause.vio Model/Machine.vio Proofs/Promise.vio Proofs/Trampoline.vio Model/Boot.vio
+Props/C03.vos Props/C03.vok Props/C03.required_vos: Props/C03.v Model/Term.vos Model/Unify.vos Model/Clause.vos Model/Machine.vos Proofs/Promise.vos Proofs/Trampoline.vos Model/Boot.vos
+Props/C04.vo Props/C04.glob Props/C04.v.beautified Props/C04.required_vo: Props/C04.v Model/Term.vo Model/Unify.vo Model/Clause.vo Model/Machine.vo Proofs/Promise.vo Proofs/Trampoline.vo Model/Boot.vo
+Props/C04.vio: Props/C04.v Model/Term.vio Model/Unify.vio Model/Clause.vio Model/Machine.vio Proofs/Promise.vio Proofs/Trampoline.vio Model/Boot.vio
+Props/C04.vos Props/C04.vok Props/C04.required_vos: Props/C04.v Model/Term.vos Model/Unify.vos Model/Clause.vos Model/Machine.vos Proofs/Promise.vos Proofs/Trampoline.vos Model/Boot.vos
